@@ -123,6 +123,16 @@ func zzSorted(in []*format.Link) []*format.Link {
 	return out
 }
 
+// zzCopyData copies a data slice keeping the difference between nil and empty.
+func zzCopyData(d []byte) []byte {
+	if d == nil {
+		return nil
+	}
+	out := make([]byte, len(d))
+	copy(out, d)
+	return out
+}
+
 // enc returns the reference encoding of (data, links in the given order): a cache-free node is encoded.
 func zzEnc(data []byte, links []*format.Link) []byte {
 	tmp := &ProtoNode{data: data, links: append([]*format.Link(nil), links...)}
@@ -169,6 +179,21 @@ func zzInv(n *ProtoNode) bool {
 		return err == nil && c == n.cached
 	}
 	return true
+}
+
+// zzCopyDataRule: what the property lets us demand of the data of a node produced by Copy / UpdateNodeLink is
+// that it is the same byte string; whether a present-but-empty Data field stays present is not stated (Copy turns
+// it into an absent one — upstream behaviour, recorded in DESIGN.md 11.7 as an observation). The copy's own
+// nil-ness is taken over into its model, so that every other clause (CID = hash of its encoding, encoding =
+// reference encoding of its data and sorted links, decode round trip) is checked on the copy as it is.
+func zzCopyDataRule(res *ProtoNode, mres *zzModel) {
+	if res == nil {
+		return
+	}
+	verifrt.Assert("C11.copy-data-bytes-equal", bytes.Equal(res.Data(), mres.data))
+	if len(mres.data) == 0 {
+		mres.data = zzCopyData(res.Data())
+	}
 }
 
 // zzCheck: the observable reads of n agree with model m. mutated = an operation that changes links ran, so
@@ -221,13 +246,16 @@ func zzPreState() (*ProtoNode, *zzModel) {
 		verifrt.Assume(l.Size <= math.MaxInt64)
 		m.links = append(m.links, l)
 	}
-	if verifrt.NondetBool("pre.hasdata") {
+	switch verifrt.NondetRange("pre.datakind", 0, 2) {
+	case 1:
+		m.data = []byte{} // present but empty: encoded as an empty Data field, unlike nil
+	case 2:
 		m.data = verifrt.NondetBytes("pre.data", 1)
 	}
 	if verifrt.NondetBool("pre.v1") {
 		m.builder = v1CidPrefix
 	}
-	n := &ProtoNode{data: m.data, builder: m.builder}
+	n := &ProtoNode{data: zzCopyData(m.data), builder: m.builder}
 	for _, l := range m.links {
 		n.links = append(n.links, &format.Link{Name: l.Name, Size: l.Size, Cid: l.Cid})
 	}
@@ -266,11 +294,22 @@ func HarnessC11Step() {
 	case "none":
 	case "SetData":
 		var d []byte
-		if verifrt.NondetBool("op.hasdata") {
+		switch verifrt.NondetRange("op.datakind", 0, 3) {
+		case 1:
+			d = []byte{}
+		case 2:
 			d = verifrt.NondetBytes("op.data", 1)
+		case 3:
+			// the caller edits the buffer the node already holds in place and hands it in again
+			d = n.Data()
+			if len(d) == 1 {
+				x := verifrt.NondetU8("op.flip")
+				verifrt.Assume(x != 0)
+				d[0] ^= x
+			}
 		}
 		n.SetData(d)
-		m.data = d
+		m.data = zzCopyData(d)
 	case "AddRawLink":
 		l := zzNondetLink("op", 9)
 		verifrt.Assume(l.Size <= math.MaxInt64)
@@ -340,6 +379,7 @@ func HarnessC11Step() {
 	case "Copy":
 		res = n.Copy().(*ProtoNode)
 		mres = m.clone()
+		zzCopyDataRule(res, mres)
 	case "UpdateNodeLink":
 		name := zzNames[verifrt.NondetRange("op.name", 0, len(zzNames)-1)]
 		that := NodeWithData(verifrt.NondetBytes("op.child", 1))
@@ -347,6 +387,7 @@ func HarnessC11Step() {
 		res, err = n.UpdateNodeLink(name, that)
 		verifrt.Assert("C11.updatenodelink-ok", err == nil)
 		mres = m.clone()
+		zzCopyDataRule(res, mres)
 		var keep []*format.Link
 		for _, l := range mres.links {
 			if l.Name != name {
